@@ -1380,6 +1380,7 @@ func runC18(r *harness.Run) {
 	c18NilArgs(r)
 	c18NilInsert(r)
 	runPinned(r, "C18")
+	reentrantFamily(r, "C18")
 }
 
 func c18RunSortFamily(r *harness.Run, c *c18Ctx, workers []*c18W, lists [][]int) {
